@@ -24,31 +24,4 @@ def ackDecRound (r0 r1 r2 : B8) : B8 := r0
 def ackDecSender (r0 r1 r2 : B8) : B16 := (((BitVec.setWidth 16 r1) <<< 8) + (BitVec.setWidth 16 r2))
 def ackDecDigestFrom : Nat := 3
 
-/-! `membershipSyncTopicName`: the two bytes hashed per member, in order -/
-def topicMemberByte0 (x : B16) : B8 := (BitVec.setWidth 8 x)
-def topicMemberByte1 (x : B16) : B8 := (BitVec.setWidth 8 (x >>> 8))
-
-/-! `encodeTagAndMembershipList` -/
-def viewEncTagLen : Nat := 32
-def viewEncStart : Nat := 33
-def viewEncStep : Nat := 2
-def viewEncByteAt0 (p : B16) : B8 := (BitVec.setWidth 8 p)
-def viewEncByteAt1 (p : B16) : B8 := (BitVec.setWidth 8 (p >>> 8))
-def viewEncShape : Bool := true  -- buff[0] = type, buff[1:33] = tag, then 2 bytes per peer, size exact
-
-/-! `decodeTagAndMembershipList` -/
-def viewDecMinLen : Nat := 33      -- shorter messages are rejected with an error
-def viewDecOddTailRejected : Bool := true  -- an explicit guard rejects a dangling last byte
-def viewDecLoopGuardsPair : Bool := false  -- loop condition `offset < len`
-def viewDecStart : Nat := 33
-def viewDecStep : Nat := 2
-def viewDecTagLo : Nat := 1
-def viewDecTagHi : Nat := 33
-def viewDecPeer (lo hi : B8) : B16 := (((BitVec.setWidth 16 hi) <<< 8) + (BitVec.setWidth 16 lo))
-def viewDecShape : Bool := true
-
-/-! `makePRF`: the two bytes fed to HMAC for identifier x -/
-def prfByte0 (x : B16) : B8 := (BitVec.setWidth 8 x)
-def prfByte1 (x : B16) : B8 := (BitVec.setWidth 8 (x >>> 8))
-
 end TSSVerif.Gen.Wire
